@@ -85,6 +85,15 @@ InContexts(i) == { i, VTuple(<<i>>), VTuple(<<SmallInt(1), i, A(<<111,107>>)>>),
                    VTuple(<<VList(<<VMap(<< <<A(<<107>>), i>> >>)>>, VNil)>>), VList(<<VTuple(<<i, i>>)>>, i) }
                  \cup (IF i.k = "pid" THEN { VFun(2, [j \in 1..16 |-> j], <<0,0,0,1>>, A(<<109>>), SmallInt(3), SmallInt(4), i, <<i>>) } ELSE {})
 IdUniverse == UNION { InContexts(i) : i \in IdPlain \cup IdLocal }
+\* node-local form wrapping the encoding the peer happened to use for the identifier (legacy / 32-bit tags):
+\* records [v |-> value, enc |-> bytes]; re-encoding must give these bytes back
+WrapCtx(b) == { <<131>> \o b, <<131, 104, 2, 97, 1>> \o b, <<131, 108, 0, 0, 0, 1, 97, 1>> \o b, <<131, 116, 0, 0, 0, 1>> \o b \o <<106>>, <<131, 116, 0, 0, 0, 1, 106>> \o b }
+CtxVal(k, v) == CASE k = 1 -> v [] k = 2 -> VTuple(<<SmallInt(1), v>>) [] k = 3 -> VList(<<SmallInt(1)>>, v) [] k = 4 -> VMap(<< <<v, VNil>> >>) [] k = 5 -> VMap(<< <<VNil, v>> >>)
+CtxBytes(k, b) == CASE k = 1 -> <<131>> \o b [] k = 2 -> <<131, 104, 2, 97, 1>> \o b [] k = 3 -> <<131, 108, 0, 0, 0, 1, 97, 1>> \o b
+                    [] k = 4 -> <<131, 116, 0, 0, 0, 1>> \o b \o <<106>> [] k = 5 -> <<131, 116, 0, 0, 0, 1, 106>> \o b
+LocH == <<9,8,7,6,5,4,3,2>>
+LocalAltVectors == UNION { { [v |-> CtxVal(k, [i EXCEPT !.loc = LocH]), enc |-> CtxBytes(k, <<121>> \o LocH \o a[2]), alts |-> <<>>, why |-> "LOCAL_EXT around " \o a[1]] :
+                               a \in Alts(i), k \in 1..5 } : i \in IdPlain }
 \* the same logical identifier in its other form (plain <-> local with the first hash)
 Twin(i) == IF i.loc = <<>> THEN [i EXCEPT !.loc = <<9,8,7,6,5,4,3,2>>] ELSE [i EXCEPT !.loc = <<>>]
 
